@@ -183,6 +183,15 @@ class Exec:
         w.armed = True
         w.mtimes.clear()
         w.mtime_granularity = k.get("mtime_granularity") or 0.0
+        # temporary files of the code under test stay inside the run's scratch directory (one
+        # directory per run: parallel runs on this machine must not meet in /tmp)
+        import tempfile
+
+        w.armed = False
+        os.makedirs(os.path.join(self.root, "tmp"), exist_ok=True)
+        w.armed = True
+        tempfile.tempdir = os.path.join(self.root, "tmp")
+        os.environ["TMPDIR"] = tempfile.tempdir
         if k.get("locale"):
             # the host application activated a locale whose decimal point is a comma and whose
             # thousands separator is a dot (de_DE, it_IT, ...).  No such locale is installed in
@@ -472,7 +481,7 @@ class Exec:
                 elif k == "unwind":
                     s.point(m[1], m[2])
                 elif k == "lock_acquire" or k == "lock_acquire_unwinding":
-                    S(cmd_w, ("ok", s.lock_acquire(m[1], m[2], m[3])))
+                    S(cmd_w, ("ok", s.lock_acquire(m[1], m[2], m[3], m[4] if len(m) > 4 else None)))
                 elif k == "lock_release":
                     try:
                         s.lock_release(m[1], m[2])
@@ -733,6 +742,15 @@ class Exec:
             s_gc = None
         s = Scheduler(self.chooser, budget=k.get("budget", 400000), line_trace_files=lt)
         s.gc_rng, s.gc_prob = s_gc, float(k.get("gc") or 0.0)
+        if k.get("stall"):
+            s.stall_rng, s.stall_prob = random.Random(self.plan["seed"] ^ 0x57A11 ^ pi), float(k["stall"])
+
+            def _jump(dt):
+                if WORLD.clock is not None:
+                    WORLD.clock.mono += dt
+                    WORLD.clock.wall += dt
+
+            s.on_timeout = _jump
         if k.get("relpath") is not None:
             os.chdir(self.work)
         self.sched = s
